@@ -298,6 +298,51 @@ def make_pairs(tag: str):
     return h
 
 
+def make_sequence():
+    """
+    Values stay values while OTHER objects built from them are queried: a type is embedded as first / later member of a
+    union and of a structure, the container is compared, hashed and asked for residues, and afterwards the member must
+    still equal (and hash like) an independently built twin - and so must its bit length set.
+    """
+    zoo = [e for e in _zoo() if e[0] == "type" and not e[1].startswith("svc") and "void" not in str(e[1])
+           and e[1] not in ("byte", "utf8")]
+    n = len(zoo)
+
+    def concrete(i: int, pos: int, kind: int) -> typing.Any:
+        import pydsdl
+
+        _, key, fn = zoo[i]
+        x = fn()
+        before = (hash(x), str(x), sorted(x.bit_length_set % 32), x.bit_length_set.min, x.bit_length_set.max)
+        others = [T.prim("u16"), T.prim("bool"), pydsdl.VariableLengthArrayType(T.prim("u3"), 5)]
+        members = list(others)
+        members.insert(pos, x)
+        c = T.composite("union" if kind else "struct", members, name="ns.Holder")
+        c2 = T.composite("union" if kind else "struct", list(members), name="ns.Holder")
+        if not (c == c2) or hash(c) != hash(c2):
+            return "containers built from the same members differ"
+        _ = (sorted(c.bit_length_set % 32), sorted(c.bit_length_set % 8), c.bit_length_set.is_aligned_at_byte(), c.extent)
+        for _f, off in c.iterate_fields_with_offsets():
+            _ = sorted(off % 32)
+        fresh = fn()
+        after = (hash(x), str(x), sorted(x.bit_length_set % 32), x.bit_length_set.min, x.bit_length_set.max)
+        if before != after:
+            return "%r changed after a container holding it (position %d) was queried: %r -> %r" % (key, pos, before, after)
+        if not (x == fresh) or not (fresh == x) or hash(x) != hash(fresh):
+            return "%r no longer equals an independently built twin after its container was queried" % (key,)
+        if not (x.bit_length_set == fresh.bit_length_set) or hash(x.bit_length_set) != hash(fresh.bit_length_set):
+            return "bit length set of %r no longer equals its twin's" % (key,)
+        return True
+
+    def h(i: int, pos: int, kind: int) -> typing.Any:
+        a, b, c = pick(i, 0, n - 1), pick(pos, 0, 3), pick(kind, 0, 1)
+        if a is None or b is None or c is None:
+            return None
+        return textio.native(concrete, a, b, c)
+
+    return h
+
+
 def make_copies():
     """Lists returned by accessors are copies: mutating them does not affect the object."""
     accessors = ["attributes", "fields", "constants", "fields_except_padding", "name_components", "namespace_components"]
@@ -410,6 +455,10 @@ def conditions(tier: str, seed: int) -> typing.List[Cond]:
         out.append(Cond(PROP, "c18.pairs", make_pairs, {"tag": tag}, {"i": int, "j": int}, kind="choice",
                         assumptions=["all ordered pairs of independently built %s objects from the descriptor list" % tag],
                         witness={"i": 0, "j": 0}, budget=900.0, need_exhaust=True))
+    out.append(Cond(PROP, "c18.sequence", make_sequence, {}, {"i": int, "pos": int, "kind": int}, kind="choice",
+                    assumptions=["every non-void type of the descriptor list embedded at each of 4 positions of a union / a "
+                                 "structure that is then compared, hashed and queried"],
+                    witness={"i": 0, "pos": 0, "kind": 1}, budget=600.0, need_exhaust=True))
     out.append(Cond(PROP, "c18.copies", make_copies, {}, {"k": int, "ai": int}, kind="choice",
                     assumptions=["6 list-returning accessors x struct / union / delimited / service request"],
                     witness={"k": 0, "ai": 0}, budget=120.0, need_exhaust=True))
